@@ -392,6 +392,8 @@ struct Agg {
     families: BTreeMap<String, u64>,
     other_rules: BTreeMap<String, u64>,
     sim_time_us: u128,
+    abandon_points: BTreeMap<String, u64>,
+    lock_acquisitions: u64,
     events: u64,
     ops: u64,
     points: u64,
@@ -470,6 +472,10 @@ pub fn batch_main(args: &[String]) -> i32 {
                         *a.other_rules.entry(o.clone()).or_insert(0) += 1;
                     }
                     a.sim_time_us += r.sim_time_us as u128;
+                    for p in r.abandon_points.iter() {
+                        *a.abandon_points.entry(p.clone()).or_insert(0) += 1;
+                    }
+                    a.lock_acquisitions += r.lock_acquisitions;
                     a.events += r.events;
                     a.ops += r.ops;
                     a.points += r.points;
@@ -557,6 +563,8 @@ pub fn batch_main(args: &[String]) -> i32 {
             "client_operations": a.ops,
             "schedule_points_reached": a.points,
             "faults_fired": a.faults,
+            "crash_points_fired": a.abandon_points,
+            "lock_acquisitions_observed": a.lock_acquisitions,
             "probes": a.probes,
             "families": a.families,
             "distinct_plans": a.plan_hashes.len(),
